@@ -2,6 +2,8 @@ package checks
 
 import (
 	"fmt"
+	"math"
+	"math/big"
 	"math/rand/v2"
 	"strings"
 
@@ -18,7 +20,8 @@ import (
 //	       valid JSON (c19_getter.go);
 //	H/...  jrpc2.Client over jhttp.Channel -> in-process HTTPClient ->
 //	       Bridge.ServeHTTP inside a synctest bubble: same observations as
-//	       over a direct connection; after Close no response body is open and
+//	       over a direct connection, also for batches with statically invalid
+//	       members (c19_invalid.go); after Close no response body is open and
 //	       no goroutine is left (c19_channel.go).
 
 func init() {
@@ -27,10 +30,14 @@ func init() {
 		Level: "exploration",
 		Rule: "Q: every query value of <=K symbols (K=4 quick, 5 thorough) over the 28-symbol alphabet {0 1 9 . - + e E x _ \" ' a inf Inf nan NaN true false null Infinity 0x p \\ = \\n True NULL} " +
 			"(exhaustive), seeded longer values over a 55-symbol alphabet, grammar-directed values (JSON strings with escapes, base64 with every padding, integers around the int64 limits, " +
-			"ParseFloat-only syntax), all pairs of a 60-value pool as two keys / one repeated key / POST body + URL, malformed queries; paths = every concatenation of <=3 segments of {/ a . %2F ''}; " +
+			"ParseFloat-only syntax), digit strings around and beyond the float64 range (Q/h: 300-400 digits with sign / fraction / leading zeros, 309-digit values on both sides of the limit, the decimal expansions of " +
+			"MaxFloat64 and of the rounding boundary 2^1024-2^970 and their neighbours, long fractions; a number only if a finite float64 exists - decided by exact integer comparison - else the literal string, always marshalable), all pairs of a 60-value pool as two keys / one repeated key / POST body + URL, malformed queries; paths = every concatenation of <=3 segments of {/ a . %2F ''}; " +
 			"each request built with httptest.NewRequest and url.QueryEscape, evaluated with ParseQuery (type, value, method, json.Marshal round trip against the reference typer) and ParseBasic. " +
-			"G: every 97th Q input plus targeted requests through a live Getter (status per cause, body valid JSON, result equal to the reference). " +
-			"H: op sequences (call/notify/batch/error/unknown method) over a direct connection and over jhttp.Channel+Bridge compared; 0-4 gated calls in flight at Client.Close x {close first, release first, partial release} " +
+			"G: every 97th Q input, seeded grammar and out-of-range digit strings plus targeted requests through a live Getter (status per cause, body valid JSON, result equal to the reference). " +
+			"H: op sequences (call/notify/batch/error/unknown method) over a direct connection and over jhttp.Channel+Bridge compared slot by slot, every op bounded (an op still blocked at quiescence is reported as a client waiting for a reply that never comes); " +
+			"H/inv: every batch of <=3 (4) members over {call with empty method (invalid, has an id), notification with empty method, echo call, notification, failing call, unknown method} with at least one invalid member, alone and amid other traffic, " +
+			"and the invalid members sent singly before/after every other op; H/rawinv: every raw batch of <=3 (4) members over {wrong version, scalar params, extra field, no method, empty method, valid call, notification} with at least one invalid member, " +
+			"posted through jhttp.Channel to a Bridge and sent to a jrpc2.Server over a direct channel, replies compared as multisets of (id, result | error); 0-4 gated calls in flight at Client.Close x {close first, release first, partial release} " +
 			"x {reader free, reader held} x single delays at every hch.*/cli.* hook visit; open response bodies and bubble goroutines counted after Close. " +
 			"distinct_nontrivial = distinct symbol-class shapes (13 classes; for values of more than 5 symbols the first 3 and last 2 classes and the length) of query values that contain a quote, sign, digit, dot, escape, padding or reserved word (plain-letter values excluded) " +
 			"+ distinct (status, cause) Getter requests + distinct (scenario, delay key) channel executions",
@@ -39,27 +46,36 @@ func init() {
 			"reference typer, JSON-string decoder and base64 decoder are hand-written from the documentation / RFC 8259 / RFC 4648; math/big gives the nearest float64",
 			"where the documentation is silent the check accepts every outcome: one-sided quotes (error or literal string), .5 5. +.5 (number or string), integers outside int64 (float64 or string), " +
 				"unpadded or non-canonical base64 (bytes or error), lone surrogates (any string or error)",
+			"a digit string in the documented number syntax whose magnitude is >= 2^1024-2^970 has no finite float64; JSON has no infinities and the parameters must be marshalable, so 'number' is excluded and the catch-all rule (literal string) is required",
+			"H/eq, H/inv: no handler of the equality workload waits for anything, hence an op that has not returned at quiescence is blocked for good; it is reported, its context is cancelled, and what it then returns is compared",
+			"H/rawinv compares which ids are answered and whether with a result (compared as JSON) or an error; error codes and messages of rejected members are not compared between Bridge and Server",
 			"H: a delay at a hook visit is a bounded runtime.Gosched spin, not a virtual-time sleep: Client.Close holds the client mutex while jhttp.Channel.Close drains, " +
 				"so a sleeping goroutine plus a goroutine waiting for that mutex would stop the bubble's clock for ever (mutex waits are not durable blocks)",
 		},
 		Require: map[string]int64{
-			"q_values":            20000,
-			"q_expect_int64":      200,
-			"q_expect_float64":    200,
-			"q_expect_string":     5000,
-			"q_expect_bytes":      50,
-			"q_expect_bool":       10,
-			"q_expect_null":       5,
-			"q_expect_error":      500,
-			"getter_requests":     300,
-			"getter_status_200":   100,
-			"getter_status_400":   50,
-			"getter_status_404":   3,
-			"getter_status_500":   10,
-			"h_ops_compared":      200,
-			"h_bodies_closed":     200,
-			"h_inflight_at_close": 100,
-			"h_drained_by_close":  20,
+			"q_values":                       20000,
+			"q_expect_int64":                 200,
+			"q_expect_float64":               200,
+			"q_expect_string":                5000,
+			"q_expect_bytes":                 50,
+			"q_expect_bool":                  10,
+			"q_expect_null":                  5,
+			"q_expect_error":                 500,
+			"getter_requests":                300,
+			"getter_status_200":              100,
+			"getter_status_400":              50,
+			"getter_status_404":              3,
+			"getter_status_500":              10,
+			"h_ops_compared":                 200,
+			"q_huge_overflow_literal":        500,
+			"q_huge_finite_float":            500,
+			"getter_huge_numbers":            200,
+			"h_invalid_with_id_compared":     300,
+			"h_batches_invalid_id_and_calls": 100,
+			"h_raw_records_compared":         200,
+			"h_bodies_closed":                200,
+			"h_inflight_at_close":            100,
+			"h_drained_by_close":             20,
 		},
 		Exhaustive: func(e vt.Env) bool { return false },
 		Cases:      c19cases,
@@ -205,6 +221,46 @@ func c19casesQ(e vt.Env, yield func(vt.Case) bool) bool {
 					c19checkBasic(c, in)
 				}
 				c.Distinct(fmt.Sprintf("Qt:%s:%d:%s", kind, min(len(v), 40), c19outKinds(ex)))
+			}
+			t.flush(c)
+		}}) {
+			return false
+		}
+	}
+	// Q/h: digit strings around and beyond the range of float64.
+	blocks, per = e.Pick(8, 80), e.Pick(500, 2000)
+	for b := 0; b < blocks; b++ {
+		b := b
+		id := fmt.Sprintf("Q/h/%d", b)
+		if !yield(vt.Case{ID: id, Run: func(c *vt.Ctx) {
+			rng := e.Rand("C19/" + id)
+			t := c19tally{}
+			for n := 0; n < per && !c.Failed(); n++ {
+				kind, v := c19huge(rng)
+				in := c19mkInput(v, n+b*per)
+				if n%5 == 4 { // next to an ordinary parameter, and as a repeated key
+					in.query = append([]c19pair{{"n", "1"}}, append(in.query, c19pair{in.query[0].k, "2"})...)
+				}
+				ex := c19checkQuery(c, in)
+				t.add(ex)
+				t["q_values"]++
+				t["q_huge_"+kind]++
+				out := "finite"
+				if os := c19classify(v); len(os) == 1 && os[0].kind == c19Str {
+					out = "overflow" // number syntax, but no finite float64: literal string only
+					t["q_huge_overflow_literal"]++
+				} else if len(os) == 1 && os[0].kind == c19Int {
+					out = "int64"
+				} else {
+					t["q_huge_finite_float"]++
+				}
+				if n%4 == 1 {
+					c19checkBasic(c, in)
+				}
+				c.Distinct(fmt.Sprintf("Qh:%s:%d:%s", kind, len(v)/8, out))
+				if n%50 == 0 && c.WantSample() {
+					c.Sample(map[string]any{"request": in.String(), "accepted_outcomes": c19want(ex)})
+				}
 			}
 			t.flush(c)
 		}}) {
@@ -368,6 +424,78 @@ func c19grammar(rng *rand.Rand) (kind, v string) {
 	s := digits(1 + rng.IntN(4))
 	k := rng.IntN(len(s) + 1)
 	return "neardecimal", sign() + s[:k] + pick("_", " ", "e", "x", ".", "..", ",", "-", "+", "'", "a", "٣", "１") + s[k:]
+}
+
+// c19huge draws digit strings around and beyond the range of float64:
+// 300-400 digits with optional sign and fraction, the exact decimal expansions
+// of MaxFloat64 and of the rounding boundary 2^1024-2^970 and their
+// neighbours, long runs of leading zeros (still small numbers), long
+// fractions (tiny numbers) and the lenient forms with an empty fraction. The
+// documented number syntax has no length limit, but a number has to be a
+// finite float64 (or an int64) to be a JSON number at all; beyond that only
+// the literal string is left.
+func c19huge(rng *rand.Rand) (kind, v string) {
+	pick := func(ss ...string) string { return ss[rng.IntN(len(ss))] }
+	digits := func(n int) string {
+		b := make([]byte, n)
+		for i := range b {
+			b[i] = byte('0' + rng.IntN(10))
+		}
+		return string(b)
+	}
+	nz := func(n int) string { // n digits, the first not zero
+		if n == 0 {
+			return ""
+		}
+		return string(byte('1'+rng.IntN(9))) + digits(n-1)
+	}
+	sign := pick("", "", "+", "-")
+	frac := func() string {
+		switch rng.IntN(5) {
+		case 0:
+			return "." + digits(1+rng.IntN(30))
+		case 1:
+			return pick(".0", ".5", ".9999999999", ".0000000001", ".")
+		}
+		return ""
+	}
+	switch rng.IntN(8) {
+	case 0, 1: // far beyond the range
+		return "overflow", sign + nz(300+rng.IntN(101)) + frac()
+	case 2: // the boundary itself and its neighbours
+		z := new(big.Int).Set(c19ovfThreshold)
+		switch rng.IntN(4) {
+		case 0:
+			z.Add(z, big.NewInt(int64(rng.IntN(5)-2)))
+		case 1:
+			mf, _ := new(big.Float).SetFloat64(math.MaxFloat64).Int(nil)
+			z = mf.Add(mf, big.NewInt(int64(rng.IntN(3)-1)))
+		case 2: // somewhere in the last binade
+			z.Sub(z, new(big.Int).Lsh(big.NewInt(rng.Int64N(1<<40)), uint(rng.IntN(980))))
+		case 3: // somewhere beyond
+			z.Add(z, new(big.Int).Lsh(big.NewInt(rng.Int64N(1<<40)), uint(rng.IntN(1000))))
+		}
+		return "boundary", sign + pick("", "", "0", "000") + z.String() + frac()
+	case 3: // 309 digits: in or out of range depending on the leading digits
+		return "digits309", sign + c19pad309(rng, pick("17", "18", "1", "179769313486231570", "179769313486231581", "2", "9", "10")) + frac()
+	case 4: // large but finite
+		return "finite", sign + nz(20+rng.IntN(289)) + frac()
+	case 5: // many leading zeros: the value is small whatever the length
+		return "zeros", sign + strings.Repeat("0", 290+rng.IntN(120)) + digits(rng.IntN(19)) + frac()
+	case 6: // long fractions: tiny or ordinary values
+		return "fraction", sign + pick("0", "1", "00", digits(1+rng.IntN(18))) + "." + strings.Repeat("0", rng.IntN(2)*(300+rng.IntN(100))) + digits(1+rng.IntN(60))
+	}
+	// both parts long
+	return "both", sign + nz(280+rng.IntN(60)) + "." + digits(280+rng.IntN(60))
+}
+
+// c19pad309 completes a prefix with random digits to 309 digits in all.
+func c19pad309(rng *rand.Rand, prefix string) string {
+	b := []byte(prefix)
+	for len(b) < 309 {
+		b = append(b, byte('0'+rng.IntN(10)))
+	}
+	return string(b)
 }
 
 func c19stdB64(raw []byte) string {
